@@ -44,6 +44,18 @@ class C06(Prop):
             elif r < 0.2:
                 st = "recal"
             c = {"stream": st, **cfg, "y": ys, "cols": cols, "w": dc.gen_weights(rng, n), "colnames": dc.gen_colnames(rng, ncols)}
+            if st == "data" and rng.random() < 0.1:
+                # counts: observations AND forecasts held in an unsigned / narrow integer dtype (differences must not wrap around)
+                c.update(kind=rng.choice(["squared_error", "pinball", "hes", "poisson", "hqs"]), h=rng.choice([2.0, 1.0]) , level=rng.choice([0.5, 0.25, 0.75]),
+                         elem_f=None, eta=0.0, y=[float(rng.randint(1, 40)) for _ in range(n)],
+                         cols=[[float(rng.randint(1, 40)) for _ in range(n)] for _ in range(ncols)], colnames=None,
+                         narrow=rng.choice(["uint8", "uint8", "uint16", "uint32", "int8"]), narrow_x=True,
+                         w=None if rng.random() < 0.5 else [float(rng.randint(1, 3)) for _ in range(n)])
+                if c["kind"] == "hqs":
+                    c["h"] = 1.0
+                cfg = {k_: c[k_] for k_ in ("kind", "h", "level", "elem_f", "eta")}  # explicit functional / level below follow THIS score
+                if dc.rank_divergent(c, n):
+                    continue
             if c["colnames"] is None and rng.random() < 0.12:
                 c["xcontainer"] = "rows_mixed"
             r2 = rng.random()
